@@ -237,3 +237,48 @@ where
 
     Ok(())
 }
+
+#[cfg(feature = "verif")]
+/// Verification hooks (feature `verif`, off by default): a public handle on the real task
+/// distributor service, so that an external harness can feed it membership changes and
+/// mutations and observe which peers it sends to. Nothing here changes the crate's behaviour.
+pub mod verif_hooks {
+    use super::*;
+
+    pub struct Distributor(TaskDistributor);
+
+    /// Starts the real distributor service for a node with the given identity.
+    pub async fn start_distributor<S: Storage>(
+        clock: Clock,
+        network: RpcNetwork,
+        local_node_id: NodeId,
+        public_node_addr: SocketAddr,
+    ) -> Distributor {
+        Distributor(
+            start_task_distributor_service::<S>(TaskServiceContext {
+                clock,
+                network,
+                local_node_id,
+                public_node_addr,
+            })
+            .await,
+        )
+    }
+
+    impl Distributor {
+        pub fn membership_change(&self, changes: MembershipChange) {
+            self.0.membership_change(changes)
+        }
+
+        pub fn put(&self, keyspace: &str, doc: Document) {
+            self.0.mutation(Mutation::Put {
+                keyspace: Cow::Owned(keyspace.to_string()),
+                doc,
+            })
+        }
+
+        pub fn kill(&self) {
+            self.0.kill()
+        }
+    }
+}
